@@ -36,6 +36,16 @@ def container_events(env, rng, thorough):
     from barril.units.unit_system_manager import UnitSystemManager
     usm = UnitSystemManager()
     usm.AddUnitSystem("verif", "verif", {"length": "cm", "depth": "m", "time": "min", "temperature": "degF", "pressure": "psi"})
+    def track(*objs_):
+        m2 = UnitSystemManager()
+        m2.AddUnitSystem("one", "one", {"length": "cm", "depth": "m", "time": "min", "temperature": "degF", "pressure": "psi"})
+        m2.AddUnitSystem("two", "two", {"length": "km", "depth": "ft", "time": "h", "temperature": "K", "pressure": "bar"})
+        for o_ in objs_:
+            P.outcome(m2.Register, o_)
+        P.outcome(m2.SetCurrent, m2.GetUnitSystemById("two"))
+        P.outcome(m2.UpdateObjects)
+        P.outcome(m2.SetCurrent, None)
+
     n = 4000 if thorough else 800
     for _ in range(n):
         objs, conts = operands()
@@ -72,6 +82,9 @@ def container_events(env, rng, thorough):
                ("f.ValidateValues", lambda: f1.ValidateValues(numpy.array([5.0, 6.0]), s2.GetQuantity())), ("CheckValidity", lambda: [x.CheckValidity() for x in (s1, a1, f1, fs1)]),
                ("GetFormatted / suffix", lambda: [s1.GetFormatted(s2.GetUnit()) if s1.GetQuantityType() == s2.GetQuantityType() else s1.GetFormatted(), a1.GetFormattedSuffix(), f1.GetFormattedSuffix()]),
                ("s.AlmostEqual", lambda: s1.AlmostEqual(s2, 3)), ("GetValidUnits", lambda: [x.GetValidUnits() for x in (s1, a1, f1, fs1)]),
+               # value objects handed to a unit-system manager for tracking (a manager of its own: selections re-express tracked objects through
+               # their public interface only - a value object is never rewritten in place)
+               ("manager.Register(value objects), selections, UpdateObjects", lambda: track(s1, a1, f1, fs1)),
                ("s.GetValueAndUnit / f.GetDimension", lambda: (s1.GetValueAndUnit(), f1.GetDimension())), ("s.ConvertScalarValue", lambda: s1.ConvertScalarValue(3.0, s1.GetUnit()))]
         name, fn = rng.choice(ops) if rng.random() < 0.7 else rng.choice(ops[-16:])
         pre = proj(objs, conts)
